@@ -181,11 +181,13 @@ def mkproject():
 
 
 def coq_make(targets: list[str], timeout: int = 1500, jobs: int = 16) -> tuple[bool, str]:
-    """Full .vo build of the given targets (relative to coq/). Returns (ok, log)."""
+    """Full .vo build of the given targets (relative to coq/). Returns (ok, log).
+    Only the regeneration of _CoqProject/Makefile is serialised; make itself runs unlocked so that one
+    slow build cannot stall the checks of other properties."""
     with _Lock():
         mkproject()
-        cmd = ["timeout", str(timeout), "make", "-C", str(COQ), f"-j{jobs}", "--no-print-directory", *targets]
-        p = subprocess.run(cmd, stdout=subprocess.PIPE, stderr=subprocess.STDOUT, text=True)
+    cmd = ["timeout", str(timeout), "make", "-C", str(COQ), f"-j{jobs}", "--no-print-directory", *targets]
+    p = subprocess.run(cmd, stdout=subprocess.PIPE, stderr=subprocess.STDOUT, text=True)
     return p.returncode == 0, p.stdout
 
 
